@@ -155,7 +155,8 @@ class C04(DocProp):
                 for b in blocks:
                     if b["t"] == "fence" and b["info"]:
                         col.mon("codeblock-info")
-                        m = re.compile(r"(?m)^[ >\-*+\d.)]*" + re.escape(b["ch"]) + "{3,}" + re.escape(b["info"]) + "$").search(out, pos)
+                        # (whichever fence character the output uses: re-spelling tilde fences as backtick fences is not forbidden)
+                        m = re.compile(r"(?m)^[ >\-*+\d.)]*(?:`{3,}|~{3,})" + re.escape(b["info"]) + "$").search(out, pos)
                         if not m:
                             col.violation("codeblock", "C04/codeblock/info-string-not-verbatim", sub, {"info": b["info"], "output": out[:300]})
                             break
